@@ -56,8 +56,9 @@ def run(chk):
     flat = None
     try:
         from . import c05flat as flat  # provided with C12
-        theorems += flat.flat_size_obligations()
-        extra = [flat.MODULE]
+        fmod, fths = flat.flat_size_obligations()
+        theorems += fths
+        extra = [fmod]
     except (ImportError, AttributeError):
         flat = None
     proved = chk.prove(MODULE, theorems, extra_targets=extra)
@@ -74,7 +75,9 @@ def run(chk):
     finally:
         run.cleanup()
     if flat is not None:
-        flat.flat_size_correspond(chk)
+        ev0 = chk.cov['evaluations']
+        nflat = flat.flat_size_correspond(chk) or 0
+        chk.cov['evaluations'] = max(chk.cov['evaluations'], ev0 + (nflat if chk.cov['evaluations'] == ev0 else 0))
     W.finish_cov(chk, run, 'one evaluation = one reference image whose every size (message, each group, each entry, '
                  'each data member, cursor-based size after full traversal, trait-level size_bytes(total counts, '
                  'total data)) is queried through the real generated code and compared with the image; plus the '
